@@ -364,7 +364,7 @@ def gen(rng, tier):
     for c in _gen_aa(rng, tier):
         yield c
     from driver import cligen
-    for c in cligen.cases(rng, ['consensus', 'entropy', 'stats', 'gapstats', 'mutstats', 'charstats', 'alleles', 'alphabet', 'pssm', 'summary'], 40 if tier == "quick" else 400):
+    for c in cligen.cases(rng, ['consensus', 'entropy', 'stats', 'gapstats', 'mutstats', 'charstats', 'alleles', 'alphabet', 'pssm', 'summary', 'diff'], 40 if tier == "quick" else 400):
         yield c
     for c in cligen.cases(rng, ['mutlist', 'mutcount'], 30 if tier == "quick" else 600):
         yield c
